@@ -69,7 +69,7 @@ impl Gen<'_, '_> {
     }
     fn range(&mut self, signed: bool) {
         let lo = if signed { self.l.draw(200) as i64 - 100 } else { self.l.draw(50) as i64 };
-        let hi = lo + self.l.draw(100_000) as i64;
+        let hi = lo + if self.l.draw(10) == 0 { 0 } else { self.l.draw(100_000) as i64 };
         self.t("(");
         self.int(lo);
         self.t("..");
@@ -87,7 +87,9 @@ impl Gen<'_, '_> {
         } else {
             self.int(lo);
             self.t("..");
-            let hi = lo + self.l.draw(300) as i64;
+            // often lo == hi spelled as two different items (two references, or a reference and a literal):
+            // only the resolver can then see that the range is a fixed size
+            let hi = lo + if self.l.draw(8) == 0 { 0 } else { self.l.draw(300) as i64 };
             self.int(hi);
             if self.l.draw(4) == 0 {
                 self.t(",...");
